@@ -113,7 +113,13 @@ Definition get_method (shared : bool) (H : list cls) (i : nat) (c : cls) (ch : c
    not recognise "stored through self, class default None, keyed by type(node)") is treated as the
    worst case, a cache shared by everybody, so that the soundness theorem stops checking *)
 Definition code_cache_shared : bool :=
-  match gen_cache_scope with CachePerInstanceByType => false | CacheOther => true end.
+  match gen_cache_scope with CachePerInstanceByType => false | CacheOther => true end
+  || gen_getmethod_shared_state.   (* any other state of _get_method shared between visitor classes *)
+
+(* a tree value has no hidden state: the `children` getters rebuild their list from the defining
+   attributes on every read (generated fact); the traversal and copy models below read `children t`
+   of the value as it is, which is only faithful when this holds *)
+Definition code_children_pure : bool := gen_children_is_pure.
 
 (* a history of method look-ups: instance i is handed a node of class c *)
 Inductive op := Visit (i : nat) (c : cls).
@@ -126,6 +132,40 @@ Fixpoint run_history (shared : bool) (Hof : nat -> list cls) (h : list op) (ch :
       let '(b, ch1) := get_method shared (Hof i) i c ch in
       let '(bs, ch2) := run_history shared Hof h' ch1 in
       (b :: bs, ch2)
+  end.
+
+(* ---- method names.  A visitor class defines methods named <prefix><class>; TreeVisitor._get_method
+   builds the candidate names with the visitor's OWN `visitor_method_prefix` on every cache miss, so
+   the handler set H of a class (v_H above, Hof in run_history) is what that class defines under its
+   own prefix.  Prefixes are abstract identifiers (0 = "visit_"). *)
+Definition prefix := nat.
+Record vclass := mkVC { vc_prefix : prefix; vc_methods : list (prefix * cls) }.
+
+Definition methods_under (p : prefix) (V : vclass) : list cls :=
+  map snd (filter (fun m => Nat.eqb (fst m) p) (vc_methods V)).
+Definition H_of_class (V : vclass) : list cls := methods_under (vc_prefix V) V.
+
+(* the look-up as the code does it (fresh instance, so the per-instance cache plays no role) *)
+Definition lookup_own (V : vclass) (c : cls) : option cls := dispatch (H_of_class V) c.
+
+(* what would happen if the candidate names were memoised at class level, keyed by the node class
+   only and shared by every visitor class: the prefix of whichever visitor met the node class first
+   is frozen into the memo *)
+Definition names_memo := list (cls * prefix).
+Fixpoint memo_get (c : cls) (mm : names_memo) : option prefix :=
+  match mm with
+  | [] => None
+  | (c', p) :: mm' => if cls_eqb c c' then Some p else memo_get c mm'
+  end.
+Definition lookup_memo (V : vclass) (c : cls) (mm : names_memo) : option cls * names_memo :=
+  match memo_get c mm with
+  | Some p => (dispatch (methods_under p V) c, mm)
+  | None => (dispatch (methods_under (vc_prefix V) V) c, (c, vc_prefix V) :: mm)
+  end.
+Fixpoint run_memo (Vof : nat -> vclass) (h : list op) (mm : names_memo) : list (option cls) :=
+  match h with
+  | [] => []
+  | Visit i c :: h' => let '(r, mm') := lookup_memo (Vof i) c mm in r :: run_memo Vof h' mm'
   end.
 
 (* the traversal with the cache threaded through (pre-order = order of the _get_method calls).
